@@ -187,18 +187,37 @@ def run(ctx, prog):
     ctx.check(callers <= {'BaseAttack._batch_loop_compute', 'BaseAttack._final_compute'}, 'C08-D1', f'{cc.key}::callers',
               f'_compute_convergence_traces is also called from {sorted(callers - {"BaseAttack._batch_loop_compute", "BaseAttack._final_compute"})}', f'called only from {sorted(callers)}', cc.where())
     # what it appends
-    apps = [c for c in ast.walk(cc.node) if isinstance(c, ast.Call) and norm(c.func).split('.')[-1] == 'append']
-    good = len(apps) == 1 and len(apps[0].args) >= 2 and norm(apps[0].args[0]) == 'self.convergence_traces' and norm(apps[0].args[1]).replace(' ', '') == 'self.scores[...,None]' \
-        and any(k.arg == 'axis' and norm(k.value) == '-1' for k in apps[0].keywords)
+    apps = [c for c in ast.walk(cc.node) if isinstance(c, ast.Call) and norm(c.func).split('.')[-1] in ('append', 'concatenate', 'hstack', 'dstack')
+            and 'convergence_traces' in norm(c) and 'scores' in norm(c)]
     st = [s for s in ast.walk(cc.node) if isinstance(s, ast.Assign) and s.value in apps]
-    good = good and len(st) == 1 and self_attr(st[0].targets[0]) == 'convergence_traces'
-    ctx.check(bool(good), 'C08-D1', f'{cc.key}::append', 'the convergence traces are not extended by self.scores[..., None] on the last axis', 'appends self.scores[..., None] on the last axis', cc.where())
+    NEWLAST = ('self.scores[...,None]', 'self.scores[...,_np.newaxis]', 'self.scores[...,np.newaxis]', '_np.expand_dims(self.scores,-1)', '_np.expand_dims(self.scores,axis=-1)')
+    if len(apps) == 1 and len(st) == 1 and self_attr(st[0].targets[0]) == 'convergence_traces':
+        c_ = apps[0]
+        parts = list(c_.args[0].elts) if c_.args and isinstance(c_.args[0], (ast.Tuple, ast.List)) else list(c_.args[:2])
+        ptxt = [norm(x).replace(' ', '') for x in parts]
+        ax = next((k.value for k in c_.keywords if k.arg == 'axis'), c_.args[2] if len(c_.args) > 2 else (c_.args[1] if len(c_.args) == 2 and isinstance(c_.args[0], (ast.Tuple, ast.List)) else None))
+        axv = astutil.const_value_(ax) if ax is not None else None
+        if len(ptxt) == 2 and ptxt[0] == 'self.convergence_traces' and ptxt[1] in NEWLAST and isinstance(axv, int):
+            ctx.check(axv == -1, 'C08-D1', f'{cc.key}::append', f'the new scores are appended along axis {axv}, not as a new last column', 'appends self.scores[..., None] on the last axis', cc.where())
+        elif len(ptxt) == 2 and ptxt[0] in NEWLAST and ptxt[1] == 'self.convergence_traces':
+            ctx.fail('C08-D1', f'{cc.key}::append', 'the new scores are put in front of the existing columns: the columns are not in processing order', cc.where())
+        else:
+            ctx.undecided('C08-D1', f'{cc.key}::append', f'`{norm(c_)[:80]}` not recognised as appending self.scores[..., None] on the last axis', cc.where())
+    else:
+        ctx.undecided('C08-D1', f'{cc.key}::append', 'the statement extending the convergence traces was not found', cc.where())
     inits = [s for s in ast.walk(cc.node) if isinstance(s, ast.Assign) and self_attr(s.targets[0]) == 'convergence_traces' and s not in st]
     for s in inits:
         pm = astutil.parents(cc.node)
         g = astutil.guards(s, pm)
-        ctx.check(any(pol and norm(t).replace(' ', '') == 'self.convergence_tracesisNone' for t, pol in g), 'C08-D1', f'{cc.key}::{norm(s)[:60]}',
-                  'the convergence traces are re-created although columns already exist (earlier points lost)', 'created only when still None', cc.where(s))
+        if any(pol and norm(t).replace(' ', '') in ('self.convergence_tracesisNone', 'Noneisself.convergence_traces') for t, pol in g) or \
+                any((not pol) and norm(t).replace(' ', '') in ('self.convergence_tracesisnotNone',) for t, pol in g):
+            ctx.ok('C08-D1', f'{cc.key}::{norm(s)[:60]}', 'created only when still None', cc.where(s))
+        elif not g:
+            ctx.fail('C08-D1', f'{cc.key}::{norm(s)[:60]}', 'the convergence traces are re-created unconditionally although columns may already exist (earlier points lost)', cc.where(s))
+        elif any(pol and isinstance(t, ast.BoolOp) and isinstance(t.op, ast.Or) and any(norm(v_).replace(' ', '') == 'self.convergence_tracesisNone' for v_ in t.values) for t, pol in g):
+            ctx.fail('C08-D1', f'{cc.key}::{norm(s)[:60]}', f'the convergence traces are re-created not only when still None but also under `{norm(g[0][0])[:70]}`: earlier points are lost', cc.where(s))
+        else:
+            ctx.undecided('C08-D1', f'{cc.key}::{norm(s)[:60]}', f'condition {[norm(t) for t, _ in g]} under which the convergence traces are created not understood', cc.where(s))
     # D2
     for name in ('_batch_loop_compute', '_final_compute', '_compute_convergence_traces', 'compute_results'):
         f = base.methods.get(name)
@@ -214,7 +233,7 @@ def run(ctx, prog):
     fc = base.methods['_final_compute']
     body = [s for s in fc.node.body if not (isinstance(s, ast.Expr) and isinstance(s.value, ast.Constant))]
     first_ok = bool(body) and norm(body[0]).replace(' ', '') == 'super()._final_compute()'
-    ctx.check(first_ok, 'C08-D3', f'{fc.key}::refresh first', '_final_compute does not start with super()._final_compute() (the final compute_results)', 'final results computed first', fc.where())
+    ctx.pattern(first_ok, 'C08-D3', f'{fc.key}::refresh first', '_final_compute does not start with super()._final_compute() (the freshness of the last column is decided by C08-D1 on the paths)', 'final results computed first', fc.where())
     bl = base.methods['_batch_loop_compute']
     d4(ctx, prog, base, bl, fc, body)
     ctx.floor('convergence call events judged', n_calls, 4)
